@@ -4,8 +4,12 @@ package memdb
 
 import (
 	"fmt"
+	"hash/fnv"
 	"reflect"
 	"sort"
+	"strconv"
+	"strings"
+	"unsafe"
 
 	"github.com/innovationb1ue/RedisGO/verifrt/vsync"
 )
@@ -176,6 +180,10 @@ func (m *MemDb) VerifDump() *VerifDumpT {
 		default:
 			vk.Type = fmt.Sprintf("unknown(%T)", e.v)
 		}
+		// whatever else the value object carries (a cache, a cursor, spare capacity): a structural
+		// fingerprint of the whole object graph, so that a read-only command that changes hidden
+		// state leads to a new state of the search instead of being merged away
+		vk.Hidden += "|" + verifDeep(e.v)
 		d.Keys = append(d.Keys, vk)
 	}
 	for k := range ttl {
@@ -463,4 +471,132 @@ func VerifTreeRun(scores []float64, del []int) []string {
 		}
 	}
 	return nil
+}
+
+// verifDeep fingerprints the object graph reachable from v by reflection: every field (exported
+// or not) of every struct, maps in sorted key order, slices with their length (byte slices also
+// with their capacity), pointers followed with back-references for cycles.  Synchronisation
+// objects, channels, functions and timers are opaque.
+func verifDeep(root any) string {
+	h := fnv.New64a()
+	w := func(s string) { h.Write([]byte(s)); h.Write([]byte{0}) }
+	seen := map[unsafe.Pointer]int{}
+	nodes := 0
+	var walk func(v reflect.Value)
+	walk = func(v reflect.Value) {
+		nodes++
+		if nodes > verifWalkLimit {
+			return
+		}
+		switch v.Kind() {
+		case reflect.Invalid:
+			w("invalid")
+		case reflect.Ptr:
+			if v.IsNil() {
+				w("nil")
+				return
+			}
+			p := v.UnsafePointer()
+			if id, ok := seen[p]; ok {
+				w("@" + strconv.Itoa(id))
+				return
+			}
+			seen[p] = len(seen)
+			w("&")
+			walk(v.Elem())
+		case reflect.Interface:
+			if v.IsNil() {
+				w("nil")
+				return
+			}
+			w(v.Elem().Type().String())
+			walk(v.Elem())
+		case reflect.Struct:
+			t := v.Type()
+			pp := t.PkgPath()
+			if pp == "sync/atomic" && strings.HasPrefix(t.Name(), "Pointer[") && t.NumField() > 0 && t.Field(0).Type.Kind() == reflect.Array {
+				// atomic.Pointer[T]{_ [0]*T; _ noCopy; v unsafe.Pointer}: follow v as a *T
+				pt := t.Field(0).Type.Elem()
+				if p := v.FieldByName("v").UnsafePointer(); p == nil {
+					w("nil")
+				} else {
+					walk(reflect.NewAt(pt.Elem(), p))
+				}
+				return
+			}
+			if strings.HasSuffix(pp, "sync") || strings.Contains(pp, "verifrt") || pp == "time" || pp == "context" {
+				w("<" + t.String() + ">")
+				return
+			}
+			w("{" + t.String())
+			for i := 0; i < v.NumField(); i++ {
+				w(t.Field(i).Name)
+				walk(v.Field(i))
+			}
+			w("}")
+		case reflect.Map:
+			if v.IsNil() {
+				w("nilmap")
+				return
+			}
+			type ent struct {
+				k string
+				v reflect.Value
+			}
+			var es []ent
+			it := v.MapRange()
+			for it.Next() {
+				es = append(es, ent{fmt.Sprintf("%v", verifScalar(it.Key())), it.Value()})
+			}
+			sort.Slice(es, func(i, j int) bool { return es[i].k < es[j].k })
+			w("map" + strconv.Itoa(len(es)))
+			for _, e := range es {
+				w(e.k)
+				walk(e.v)
+			}
+		case reflect.Slice:
+			if v.IsNil() {
+				w("nilslice")
+				return
+			}
+			if v.Type().Elem().Kind() == reflect.Uint8 {
+				w("bytes" + strconv.Itoa(v.Len()) + "/" + strconv.Itoa(v.Cap()))
+				h.Write(v.Bytes())
+				return
+			}
+			w("slice" + strconv.Itoa(v.Len()))
+			for i := 0; i < v.Len(); i++ {
+				walk(v.Index(i))
+			}
+		case reflect.Array:
+			for i := 0; i < v.Len(); i++ {
+				walk(v.Index(i))
+			}
+		case reflect.Chan, reflect.Func, reflect.UnsafePointer:
+			w(v.Kind().String())
+		default:
+			w(fmt.Sprintf("%v", verifScalar(v)))
+		}
+	}
+	walk(reflect.ValueOf(root))
+	return strconv.FormatUint(h.Sum64(), 36)
+}
+
+// verifScalar reads a basic value even from an unexported field.
+func verifScalar(v reflect.Value) any {
+	switch v.Kind() {
+	case reflect.String:
+		return v.String()
+	case reflect.Bool:
+		return v.Bool()
+	case reflect.Int, reflect.Int8, reflect.Int16, reflect.Int32, reflect.Int64:
+		return v.Int()
+	case reflect.Uint, reflect.Uint8, reflect.Uint16, reflect.Uint32, reflect.Uint64, reflect.Uintptr:
+		return v.Uint()
+	case reflect.Float32, reflect.Float64:
+		return v.Float()
+	case reflect.Complex64, reflect.Complex128:
+		return v.Complex()
+	}
+	return v.Kind().String()
 }
